@@ -53,7 +53,9 @@ PREFIXES = ["%define ", "%import ", "%include ", "<a ", "</", "k ", "%"]
 POOL_QUICK = ["", "k v", "<a>", "</a>", "<a b/>", "%define n v", "k $n",
               "</b>", "<A B>", "(k) v", "%include f", "# c"]
 POOL_QUICK = POOL_QUICK + ["</a b>", "%include $(ZCV_EMPTY)",
-                           "%key_value k v", "%directive import p"]
+                           "%key_value k v", "%directive import p",
+                           # a section name is not a value: never expanded
+                           "<a $n>", "<b ${n}/>"]
 POOL_THOROUGH = POOL_QUICK + [
     "</a/>", "</a  >", "k $(ZCV_EMPTY)", "%import $(ZCV_EMPTY)",
     " ", "k", "K  v w ", "k (v)", "k(v", "<a  B >", "< a>", "<a b c>",
@@ -433,6 +435,18 @@ def _run_shard(ctx):
                 continue
             check_text(ctx, "\n".join(seq) + ("\n" if idx % 2 else ""),
                        "pool")
+    # (b') long runs of lines that carry nothing, between lines that do
+    idx = 0
+    for n in (150, 1100, 2600) if ctx.quick else (150, 990, 1100, 2600,
+                                                 7000):
+        for filler in ("\n", "# c\n", " \t\n", "\n  # c $ <\n\t\n"):
+            for tmpl in ("k v\n%s<a>\n%sk2 w\n</a>\n%s",
+                         "%sk v\n", "<a>\n%s</a>\n", "<a>\n%s</b>\n",
+                         "k v\n%s</a>\n", "%s<a>\n"):
+                idx += 1
+                if ctx.mine(idx):
+                    run = filler * n
+                    check_text(ctx, tmpl.replace("%s", run), "longrun")
     # (c) random texts
     rng = ctx.rng("random")
     for i in range(RANDOM[ctx.tier] // ctx.nshards):
